@@ -61,8 +61,26 @@ STRADDLE = [(bytes.fromhex("0100000c"), bytes.fromhex("00008000")),
             (bytes.fromhex("010c0000"), bytes.fromhex("80000000"))]
 
 
+def big_tagcount(r):
+    """a legal-sized, 4-aligned datagram whose tag count is so large that the offset table still fits
+    (4n <= len) but offsets + tags do not (8n > len): zero / small aligned offsets pass the per-offset
+    checks, the tag reads run off the end. Classic and RFC-framed."""
+    total = r.choice([1024, 1028, 1200, 1500 - 1500 % 4])
+    framed = r.random() < 0.5
+    body = total - 12 if framed else total
+    n = r.randint(body // 8 + 1, min(body // 4, 1024))
+    b = bytearray(body)
+    struct.pack_into("<I", b, 0, n)
+    if r.random() < 0.5:      # a few aligned, in-range offsets instead of all zero
+        for i in range(min(n - 1, 8)):
+            struct.pack_into("<I", b, 4 + 4 * i, 4 * r.randint(0, 10))
+    return rt.frame(bytes(b)) if framed else bytes(b)
+
+
 def junk(r, good_srv):
-    k = r.randrange(19)
+    k = r.randrange(20)
+    if k == 19:
+        return big_tagcount(r)
     if k == 16:  # >= 3 tags, mutated offset table (IETF request with SRV has 4 tags)
         return offset_mutant(r, valid_ietf(r, srv=good_srv if r.random() < 0.5 else None), 12)
     if k == 17:  # classic request with an extra field so that it has 3 tags
@@ -682,6 +700,16 @@ def run_c12(ctx):
     sample = [mat[r.randrange(len(mat))] for _ in range(240 if not ctx.thorough else 2000)] + mat[-262:][::8]
     for k in range(0, len(sample), 40):
         eng.add((16, 0, 3, 0), [[(i % 4, d) for i, (d, _) in enumerate(sample[k:k + 40])]], 4)
+    # a full batch of requests that must be ignored (unsupported versions / another server's SRV) with
+    # acceptable ones queued right behind them, then silence: the acceptable ones are still answered
+    rej = [d for d, want in mat if not want and 1024 <= len(d) <= 1500]
+    acc_ = [d for d, want in mat if want]
+    if rej and acc_:
+        for bsz in (4, 16):
+            q = [(i % 4, rej[r.randrange(len(rej))]) for i in range(bsz)] + [(i % 4, acc_[r.randrange(len(acc_))]) for i in range(3)]
+            eng.add((bsz, 0, 3, 0), [q], 4)
+            q2 = [(0, rej[r.randrange(len(rej))]) for _ in range(2 * bsz)] + [(1, acc_[r.randrange(len(acc_))])]
+            eng.add((bsz, 0, 3, 0), [q2], 4)
     eng.run(); eng.judge()
     for s_, lines, il, ml in eng.results:
         pi = parse_run(il[1])
